@@ -636,6 +636,12 @@ func (rn *runner) bindCase(c *ccase) (err error, plan string, invoke, init refle
 		items = regroupItems(newRng(uint64(c.regroup)), items, 0)
 	}
 	coll := nject.Sequence("", items...)
+	return rn.bindColl(coll, c, idToPid)
+}
+
+// bindColl binds an already built collection with the case's invoke/init signatures and
+// captures the plan of that Bind.
+func (rn *runner) bindColl(coll *nject.Collection, c *ccase, idToPid map[int32]int) (err error, plan string, invoke, init reflect.Value) {
 	invPtr := reflect.New(reflect.FuncOf(rtypes(c.invIns), rtypes(c.invOuts), false))
 	var invArg any = invPtr.Interface()
 	switch c.invKind {
@@ -706,6 +712,19 @@ func runChain(line string) string {
 	c := parseChain(line)
 	rn := &runner{}
 	err, plan, invoke, init := rn.bindCase(c)
+	return rn.session(c, err, plan, invoke, init)
+}
+
+// observeColl binds a collection with the case's signatures and runs the case's session.
+func (rn *runner) observeColl(coll *nject.Collection, c *ccase, idToPid map[int32]int) string {
+	rn.mu.Lock()
+	rn.cnt, rn.log, rn.dbg = 0, nil, ""
+	rn.mu.Unlock()
+	err, plan, invoke, init := rn.bindColl(coll, c, idToPid)
+	return rn.session(c, err, plan, invoke, init)
+}
+
+func (rn *runner) session(c *ccase, err error, plan string, invoke, init reflect.Value) string {
 	if err != nil {
 		return fmt.Sprintf("BIND err %d ; %s", classifyBindErr(err.Error()), plan)
 	}
